@@ -27,17 +27,18 @@ import (
 )
 
 type childSpec struct {
-	Mode    string    `json:"mode"` // seq conc live restart replay-seq replay-conc
-	Tier    string    `json:"tier"`
-	Seed    uint64    `json:"seed"`
-	Batch   int       `json:"batch"`
-	N       int       `json:"n"`     // histories / scenarios in this batch
-	Steps   int       `json:"steps"` // steps per sequential history
-	Race    bool      `json:"race"`
-	Live    bool      `json:"live,omitempty"`   // start the module system first
-	Shared  string    `json:"shared,omitempty"` // directory shared by a live/restart pair
-	History *history  `json:"history,omitempty"`
-	Scen    *concScen `json:"scen,omitempty"`
+	Mode    string     `json:"mode"` // seq conc live restart replay-seq replay-conc
+	Tier    string     `json:"tier"`
+	Seed    uint64     `json:"seed"`
+	Batch   int        `json:"batch"`
+	N       int        `json:"n"`     // histories / scenarios in this batch
+	Steps   int        `json:"steps"` // steps per sequential history
+	Race    bool       `json:"race"`
+	Live    bool       `json:"live,omitempty"`   // start the module system first
+	Shared  string     `json:"shared,omitempty"` // directory shared by a live/restart pair
+	History *history   `json:"history,omitempty"`
+	Scen    *concScen  `json:"scen,omitempty"`
+	MScen   *msaveScen `json:"mscen,omitempty"`
 }
 
 var raceScope = []string{
@@ -58,7 +59,7 @@ func main() {
 		"with acceptable and unacceptable values of every Go type and JSON-decoded shape; after every step all getters (old and new, plain and Concurrent, wrong-type, unknown), UserValue/IsSetByUser, " +
 		"GetActiveConfigValues and the returned errors are compared with a three-layer model. concurrent case = one setter (40-160 operations with unique increasing values; set/default/replace/delete/release-level gate scripts) " +
 		"against 2-16 readers using shared Concurrent getters, private plain getters and fresh getters, under a hook plan (none, random delays, reader parked between flag and value, setter parked before the signal), " +
-		"decided by the regular-register condition on call/ret sequence numbers. distinct = distinct history specs / scenario specs; every case is non-trivial (it is compared with the model at every step / every read)")
+		"decided by the regular-register condition on call/ret sequence numbers. concurrent-setter case = 2-4 goroutines calling SetConfigOption (own options and a shared one, unique increasing values, config file configured) in 60-120 rounds; at every quiescence the user layer must hold a set nothing follows, the file must parse and equal the user layer, a strict load after clearing must restore it, and getter reads obey the multi-writer regular-register rule. distinct = distinct history specs / scenario specs; every case is non-trivial (it is compared with the model at every step / every read)")
 	rep.Assume("model: effective release level = effective value of core/releaseLevel under the same user > default layer > registered default rule")
 	rep.Assume("int options accept Go integer types up to 32 bit unsigned / 64 bit signed and floats without fraction; uint64/uintptr may be accepted or rejected; regular expressions of int options apply to the decimal representation")
 	rep.Assume("plain (non-Concurrent) getters are only used by the goroutine that created them")
@@ -96,6 +97,15 @@ func main() {
 		if cfg.BinRace != "" {
 			for i := 0; i < nConcRace; i++ {
 				add(fmt.Sprintf("race-%03d", i), cfg.BinRace, childSpec{Mode: "conc", Batch: 1000 + i, N: nScen, Race: true}, 15*time.Minute)
+			}
+		}
+		// several setters at once with a configuration file (save/load under concurrency)
+		for i := 0; i < cfg.N(6, 32); i++ {
+			add(fmt.Sprintf("msave-%03d", i), cfg.BinPlain, childSpec{Mode: "msave", Batch: 4000 + i, N: cfg.N(3, 6)}, 10*time.Minute)
+		}
+		if cfg.BinRace != "" {
+			for i := 0; i < cfg.N(2, 12); i++ {
+				add(fmt.Sprintf("msaverace-%03d", i), cfg.BinRace, childSpec{Mode: "msave", Batch: 5000 + i, N: cfg.N(2, 4), Race: true}, 15*time.Minute)
 			}
 		}
 		for i := 0; i < nLive; i++ {
@@ -157,6 +167,7 @@ func main() {
 		rep.Floor(rep.Counter("steps") >= int64(cfg.N(5000, 50000)), "sequential steps=%d", rep.Counter("steps"))
 		rep.Floor(rep.Counter("concurrent_reads") >= 100000, "concurrent reads=%d (<1e5)", rep.Counter("concurrent_reads"))
 		rep.Floor(rep.SeenCount("interleaving_signatures") >= 20, "distinct interleaving signatures=%d (<20)", rep.SeenCount("interleaving_signatures"))
+		rep.Floor(rep.Counter("quiescence_checks") >= 300, "quiescence checks after concurrent setters=%d (<300)", rep.Counter("quiescence_checks"))
 		rep.Floor(rep.SeenCount("op_kinds") >= 9, "operation kinds seen=%d", rep.SeenCount("op_kinds"))
 		// every option type x constraint kind x set-like operation
 		missing := 0
@@ -211,9 +222,10 @@ func fatalSite(tail string) string {
 func replaySpec(path string) (childSpec, error) {
 	var doc struct {
 		Detail struct {
-			Mode     string    `json:"mode"`
-			History  *history  `json:"history"`
-			Scenario *concScen `json:"scenario"`
+			Mode     string     `json:"mode"`
+			History  *history   `json:"history"`
+			Scenario *concScen  `json:"scenario"`
+			MScen    *msaveScen `json:"mscen"`
 		} `json:"detail"`
 	}
 	b, err := os.ReadFile(path)
@@ -226,6 +238,8 @@ func replaySpec(path string) (childSpec, error) {
 	switch {
 	case doc.Detail.History != nil:
 		return childSpec{Mode: "replay-seq", History: doc.Detail.History}, nil
+	case doc.Detail.MScen != nil:
+		return childSpec{Mode: "replay-msave", MScen: doc.Detail.MScen, N: 5}, nil
 	case doc.Detail.Scenario != nil:
 		return childSpec{Mode: "replay-conc", Scen: doc.Detail.Scenario, N: 25}, nil
 	}
@@ -283,6 +297,23 @@ func childMain(dir string) {
 				b.Sample(map[string]any{"mode": "concurrent scenario", "scenario": sc})
 			}
 		}
+	case "msave":
+		for s := 0; s < cs.N; s++ {
+			r := vlib.NewRand(cs.Seed, fmt.Sprintf("C04/msave/%d", cs.Batch), uint64(s))
+			sc := genMsaveScen(r, fmt.Sprintf("m%ds%d", cs.Batch, s), cs.Race)
+			runMsaveScenario(b, sc, scratch)
+			if s == 0 && cs.Batch == 4000 {
+				b.Sample(map[string]any{"mode": "concurrent setters with a config file", "scenario": sc})
+			}
+		}
+	case "replay-msave":
+		for s := 0; s < cs.N; s++ {
+			sc := *cs.MScen
+			sc.ID = fmt.Sprintf("%s_r%d", sc.ID, s)
+			runMsaveScenario(b, sc, scratch)
+		}
+		b.DistinctS("replay-a")
+		b.DistinctS("replay-b")
 	case "replay-conc":
 		for s := 0; s < cs.N; s++ {
 			sc := *cs.Scen
